@@ -305,7 +305,16 @@ class _ToyMultiSurr(toy.ToyMulti):
         x = np.atleast_2d(np.asarray(x, dtype=float))
         n = max(len(T), len(x))
         T = np.broadcast_to(T, (n,))
-        return np.squeeze(np.array([np.diag(self.Dsol(float(t))) for t in T]))
+        x = np.broadcast_to(x, (n, x.shape[-1]))
+
+        def full(t, xi):
+            # diagonal from the Arrhenius law, off-diagonal terms negative and composition dependent (as cross terms of real
+            # interdiffusivity matrices can be): only data for the surrogate, which fits a signed cube root
+            d = self.Dsol(float(t))
+            sq = np.sqrt(np.outer(d, d))
+            off = -0.3 * sq * (1.0 + np.add.outer(xi, xi))
+            return np.diag(d) + off - np.diag(np.diag(off))
+        return np.squeeze(np.array([full(t, xi) for t, xi in zip(T, x)]))
 
     def getTracerDiffusivity(self, x, T, removeCache=True, phase=None):
         T = np.atleast_1d(np.asarray(T, dtype=float)).reshape(-1)
